@@ -646,7 +646,20 @@ def _bool_tree(t, kind):
     if len(ps) == 2:
         op = ps[0][1].strip()
         if op in ("<", "<=", ">", ">="):
-            return None
+            # order tests in one canonical form: `A < B` or `A <= B` with A, B in text order; `>` / `>=` are their negations
+            L, R = _strip(ps[0][0]), _strip(ps[1][0])
+            if op in (">", ">="):
+                neg = not neg
+                op = "<=" if op == ">" else "<"
+            if L > R:
+                L, R = R, L
+                op = "<=" if op == "<" else "<"
+                neg = not neg
+            at = _leaf_atoms(t, kind)
+            if len(at) != 1:
+                return None
+            leaf = ("leaf", (f"{L} {op} {R}", next(iter(at)), op))
+            return ("not", leaf) if neg else leaf
         if op == "!=":
             neg = not neg
     for pos_s, neg_s in PAIRS:
@@ -722,6 +735,8 @@ def same_truth_function(kind_a, key_a, kind_b, key_b):
         c = [b for b in rest if atom_known(a[1], {b[1]})]
         if len(c) != 1:
             return None
+        if (len(a) > 2 or len(c[0]) > 2) and a[2:] != c[0][2:]:
+            return False  # an order test against a strict / non-strict one (or against a non-order test) on the same origins
         m[a] = c[0]
         rest.remove(c[0])
     sa = any(kind_a.startswith(k) for k in S_KINDS)
